@@ -88,8 +88,16 @@ void DHCP::add_option(const option& opt) {
     options_.push_back(opt);
 }
 
+// END and PAD are single octets on the wire (RFC 2132 section 3.1 and 3.2), every other option has a length octet
+static uint32_t dhcp_option_wire_size(const DHCP::option& opt) {
+    if (opt.option() == DHCP::END || opt.option() == DHCP::PAD) {
+        return sizeof(uint8_t);
+    }
+    return static_cast<uint32_t>(opt.data_size() + (sizeof(uint8_t) << 1));
+}
+
 void DHCP::internal_add_option(const option& opt) {
-    size_ += static_cast<uint32_t>(opt.data_size() + (sizeof(uint8_t) << 1));
+    size_ += dhcp_option_wire_size(opt);
 }
 
 bool DHCP::remove_option(OptionTypes type) {
@@ -97,7 +105,7 @@ bool DHCP::remove_option(OptionTypes type) {
     if (iter == options_.end()) {
         return false;
     }
-    size_ -= static_cast<uint32_t>(iter->data_size() + (sizeof(uint8_t) << 1));
+    size_ -= dhcp_option_wire_size(*iter);
     options_.erase(iter);
     return true;
 }
@@ -250,6 +258,9 @@ void DHCP::write_serialization(uint8_t* buffer, uint32_t total_sz) {
         stream.write(Endian::host_to_be<uint32_t>(0x63825363));
         for (options_type::const_iterator it = options_.begin(); it != options_.end(); ++it) {
             stream.write(it->option());
+            if (it->option() == END || it->option() == PAD) {
+                continue;
+            }
             stream.write<uint8_t>(it->length_field());
             stream.write(it->data_ptr(), it->data_size());
         }
